@@ -113,6 +113,15 @@ def run(tier, seed):
             else:
                 kind = "ends-not-unit"
                 Pc = Pc * float(rng.uniform(0.3, 0.9))
+            if rep == reps + 1 or (rep < reps and rng.random() < 0.08):
+                # REAL, bounded, not achievable: c T_n and real corners scaled below 1 - nothing but an exception is right
+                kind = "real-unachievable"
+                if rng.random() < 0.5:
+                    cc = np.zeros(n + 1); cc[n] = float(rng.choice([0.5, 0.95, 0.999]))
+                    Pc = np.array(P.mono_from_cheb(cc), dtype=complex)
+                else:
+                    phr, _ = P.corner_phases(rng, n, style="real")
+                    Pc = np.real(np.array(P.corner_poly(phr))) * float(rng.choice([0.9, 0.999, 0.5])) + 0j
             one(ctx, A, list(Pc), tol, kind, {"style": style, "source_phases": ph})
             # sibling requests right after: the same polynomial under other tolerances, the loosest first (an answer
             # may depend on the arguments of the call only, not on what was asked before)
